@@ -342,6 +342,8 @@ def _gen_dist(ctx, in_order):
         ("quso", "QUSOMatrix", {(0, 1): -1, (1, 2): 1.5, (0,): 0.5, (2,): -1}),
         ("quso", "QUSOMatrix", {(0, 1): 1, (1, 2): 1, (0, 2): 1, (1,): -0.5, (): 2}),
         ("quso", "QUSOMatrix", {(0, 2): 1.5, (0,): -0.5}),                        # label 1 missing: dE = 0 there
+        ("puso", "PUSOMatrix", {(0, 2): 1.5, (0,): -0.5}),                        # the same through the PUSO kernel
+        ("puso", "PUSOMatrix", {(0, 1, 3): 1, (0,): 0.5}),                        # label 2 in no term
         ("puso", "PUSOMatrix", {(0, 1, 2): 1, (0,): 0.5, (1, 2): -1}),
         ("puso", "PUSOMatrix", {(0, 1): 1, (1, 2): -1.5, (2,): 0.5}),
         ("puso", "QUSOMatrix", {(0, 1): -1, (0,): 1, (1,): -0.5}),
@@ -352,6 +354,7 @@ def _gen_dist(ctx, in_order):
         ("qubo", "QUBOMatrix", {(0, 1): -2, (1, 2): 1, (0,): 1, (2,): -1.5, (): 1}),
         ("pubo", "PUBOMatrix", {(0, 1, 2): 2, (0,): -1, (1, 2): -1, (2,): 0.5}),
         ("pubo", "PUBOMatrix", {(0, 1): 1.5, (1,): -1}),
+        ("pubo", "PUBOMatrix", {(0, 2): 2, (0,): -1}),                            # label 1 in no term
     ]
     labelled = [
         ("quso", "dict", {('a', 'b'): 1, ('b',): -0.5, ('a', 0): 1.5}),
